@@ -235,7 +235,8 @@ def step (d : DSt) (j : Json) : DSt × List String :=
         let before := st.w.sent.length
         let w' := st.w.step st.cfg (.tick i peer)
         let n' := (w'.nodes[i]?).getD n
-        ({ d with st := { st with w := w' } }, [s!"{sentLine w' before} {stLine n'}"])
+        let ql := ((n'.queues.find? (fun q => q.peer == peer)).map (·.queue.length)).getD 0
+        ({ d with st := { st with w := w' } }, [s!"{sentLine w' before} {stLine n'} q={ql}"])
   | "deliver" =>
     match st.w.sent[jNat j "m"]? with
     | none => (d, ["no-message"])
@@ -244,6 +245,19 @@ def step (d : DSt) (j : Json) : DSt × List String :=
   | "advance" =>
     let w' := st.w.step st.cfg (.advance (jNat j "n") (jNat j "dt"))
     ({ d with st := { st with w := w' } }, [s!"convs={((w'.nodes[jNat j "n"]?).map (·.convs.length)).getD 0}"])
+  | "conn" =>
+    let i := jNat j "n"; let peer := jNat j "peer"
+    match st.w.nodes[i]? with
+    | none => (d, ["no-connection"])
+    | some n =>
+      if (peerOf n peer).isNone then (d, ["no-connection"])
+      else
+        let mode : ConnMode := match jStr j "mode" with
+          | "down" => .down | "up" => .up | "disconnect" => .disconnect | _ => .connect
+        let w' := st.w.step st.cfg (.conn i peer mode)
+        let n' := (w'.nodes[i]?).getD n
+        let c := ((peerOf n' peer).map (·.connected)).getD false
+        ({ d with st := { st with w := w' } }, [s!"conn connected={c} queue={n'.queues.any (fun q => q.peer == peer)}"])
   | "evict" =>
     let w' := st.w.step st.cfg (.evict (jNat j "n"))
     ({ d with st := { st with w := w' } }, [s!"convs={((w'.nodes[jNat j "n"]?).map (·.convs.length)).getD 0}"])
